@@ -106,9 +106,9 @@ PROPS = {
         "design": "DESIGN.md §3 C13",
     },
     "C19": {
-        "engines": [DESC, dict(REFLECT, args={"quick": ["-n", "60"], "thorough": ["-n", "800"]})],
-        "lean_files": ["C19", "C19Getters"],
-        "text": "Partial. Proved (Lean 4, Properties/C19.lean): the flattened message order is depth-first parent-first, the message index is the position in it, and evaluating the generated Messages().ByName(..) parent chain resolves to the message itself. protoimpl.TypeBuilder, the registries and prototext are trusted protobuf-go code: on every run, for every generated package (corpus and checked-in) the registered file descriptor is compared with the request's (options included), every message/enum is looked up in the global registries and mapped back to its Go type, descriptor identity and Type/New/Zero are checked, getters are compared with Get on random values and nil receivers, Reset, String -> prototext.Unmarshal -> equal, enum String/Number/Descriptor.",
+        "engines": [DESC, dict(REFLECT, args={"quick": ["-n", "60"], "thorough": ["-n", "800"]}), GEN],
+        "lean_files": ["C19", "C19Getters", "C19Tables"],
+        "text": "Partial. Proved (Lean 4, Properties/C19.lean): the flattened message order is depth-first parent-first, the message index is the position in it, and evaluating the generated Messages().ByName(..) parent chain resolves to the message itself; Properties/C19Tables.lean: in the model of genReflectFileDescriptor every entry of the dependency index table points at the goTypes row of the declared type of the corresponding field / method (C19_depIdx_points_at_declared_type), the file's own declarations come first in flattened order, no type has two rows and the section offsets are those protobuf-go's TypeBuilder reads; the model's tables are compared on every run with the file_x_goTypes / file_x_depIdxs variables parsed from the emitted sources (deptab lines) and the index / parent-chain model with the emitted msgTypes indexes (msgindex lines). protoimpl.TypeBuilder, the registries and prototext are trusted protobuf-go code: on every run, for every generated package (corpus and checked-in) the registered file descriptor is compared with the request's (options included), every message/enum is looked up in the global registries and mapped back to its Go type, descriptor identity and Type/New/Zero are checked, getters are compared with Get on random values and nil receivers, Reset, String -> prototext.Unmarshal -> equal, enum String/Number/Descriptor.",
         "note": "partial: protobuf-go's type builder and registries are outside the model; nested message/enum declarations in corpus schemas are limited to map entries and the checked-in test3 nesting files",
         "design": "DESIGN.md §3 C19",
     },
@@ -153,7 +153,9 @@ REQUIRED = {
             "C12_reserved_names_rewritten", "C12_reserved_oneof_names_rewritten", "C12_model_total"],
     "C13": ["C13_features_order_independent", "C13_message_index_order_independent", "C13_file_content_independent_of_cogenerated"],
     "C19": ["C19_flatten_complete", "C19_flatten_parent_before_child", "C19_msgIndex_is_flatten_position", "C19_descPath_resolves_to_self",
-            "C19_getters_eq_get", "C19_getters_eq_get_nil", "C19_reset_is_empty"],
+            "C19_getters_eq_get", "C19_getters_eq_get_nil", "C19_reset_is_empty",
+            "C19_depIdx_points_at_declared_type", "C19_goTypes_nodup", "C19_goTypes_start_with_declarations",
+            "C19_goTypes_only_declared_or_used", "C19_depIdx_offsets"],
     "C06": ["C06_closure_no_panic", "C06_no_panic", "C06_fuel_irrelevant", "C06_depth_bounded", "C06_too_deep_rejected", "C06_post_usable",
             "C06_alloc_value_agrees", "C06_alloc_linear", "C06_alloc_linear_any_outcome"],
     "C07": ["C07_reads_frame", "C07_read_history_frame", "C07_extracted_input_flows_copy",
